@@ -33,10 +33,11 @@ type Case struct {
 	Path  string `json:"path,omitempty"`
 	Truth []byte `json:"truth,omitempty"`
 	// reader op: take the ground truth from the file itself (os.ReadFile), for files too large to ship in a case
-	TruthFromFile bool   `json:"truth_from_file,omitempty"`
-	Ops           int    `json:"ops,omitempty"`
-	Seed          uint64 `json:"seed,omitempty"`
-	ReadPlan      []int  `json:"read_plan,omitempty"` // explicit (op,off,len) triples
+	TruthFromFile bool    `json:"truth_from_file,omitempty"`
+	Ops           int     `json:"ops,omitempty"`
+	Offsets       []int64 `json:"offsets,omitempty"` // readerbig: the places the history clusters around
+	Seed          uint64  `json:"seed,omitempty"`
+	ReadPlan      []int   `json:"read_plan,omitempty"` // explicit (op,off,len) triples
 
 	// glob op
 	Pattern string `json:"pattern,omitempty"`
